@@ -59,6 +59,9 @@ def diagnose_global(adm, consts, trace, res, name, t, sh):
     tree = pyast.parse(trace["src"])
     ex = set(trace.get("executed_lines") or ())
     path, ft, fs, parent = admit.find_failure(adm, t, sh)
+    ba = c01_diag.branch_attr_signature(tree, ex)
+    if ba:
+      out["branch_attr"] = ba
     ip = c01_diag.inplace_signature(tree, name, ex)
     if ip and not path:
       out["inplace"] = ip
@@ -90,6 +93,8 @@ def mechanism(v, dg):
     if dg.get("site"):
       return c01_diag.K_SITE
     vw = dg.get("view") or {}
+    if vw.get("selfconflict"):
+      return c01_diag.K_SELFCONFLICT
     if vw.get("notrun"):
       return c01_diag.K_NOTRUN
     if dg.get("outside_attr"):
@@ -98,6 +103,12 @@ def mechanism(v, dg):
       return c01_diag.K_PARAM_REBOUND
     if dg.get("inplace") and vw.get("invisible"):
       return c01_diag.K_INPLACE
+    if dg.get("branch_attr") and vw.get("found") is False:
+      return c01_diag.K_BRANCH_ATTR
+    if vw.get("cond"):
+      return c01_diag.K_COND
+    if vw.get("rebound"):
+      return c01_diag.K_REBOUND
     if vw.get("reuse"):
       return c01_diag.K_REUSE
     if vw.get("sibling"):
